@@ -51,6 +51,15 @@ def generate(rng, tier):
         uniq = [c[0] for c in p["part"]["columns"] if c[1] in ("d", "i") and not re.search(r"_[xyz]$", c[0])]
         if uniq:
             case["sortby"] = rng.choice(uniq)
+            # the caller's sortby dictionary may name further groups, in any order, which this load does not produce
+            # (no sink file in the output; the mesh switched off)
+            extra = []
+            if p["sink"] is None and rng.random() < 0.4:
+                extra.append(["sink", "id"])
+            if rng.random() < 0.3:
+                extra.append(["mesh", "level"])
+            if extra:
+                case["sortby_extra"] = {"entries": extra, "before": rng.random() < 0.7}
     if p["part"] is not None and rng.random() < 0.3:
         # only some of the particle variables are asked for (as a list, or the others switched off one by one): the
         # records of the others are skipped, whatever their on-disk type
@@ -93,11 +102,18 @@ def execute(case, stats):
         kw = {}
         if case["sortby"]:
             kw["sortby"] = {"part": case["sortby"]}
+            sx = case.get("sortby_extra")
+            if sx:
+                stats.inc("probe.sortby_names_groups_not_produced")
+                ent = {g: k for g, k in sx["entries"]}
+                kw["sortby"] = dict(list(ent.items()) + [("part", case["sortby"])]) if sx["before"] else dict([("part", case["sortby"])] + list(ent.items()))
+                if "mesh" in ent:
+                    kw["select"] = {"mesh": False}
         ps = case.get("part_select") if p["part"] is not None else None
         if ps:
             stats.inc("probe.particle_variable_subset=" + ps["form"])
             allnames = [c[0] for c in p["part"]["columns"]]
-            kw["select"] = {"part": list(ps["keep"])} if ps["form"] == "list" else {"part": {n: False for n in allnames if n not in ps["keep"]}}
+            kw["select"] = dict(kw.get("select", {}), part=list(ps["keep"]) if ps["form"] == "list" else {n: False for n in allnames if n not in ps["keep"]})
         if case.get("warm"):
             # an earlier load by another dataset in this process, with the same argument objects
             stats.inc("probe.earlier_load_in_this_process")
@@ -267,7 +283,7 @@ def measure(case):
     ncol = len(p["part"]["columns"]) if p["part"] else 0
     ns = (p["sink"]["nsink"] + len(p["sink"]["columns"])) if p["sink"] else 0
     return (p["ncpu"], npart, ncol, ns, p["levelmax"], p["ndim"], int(case["sortby"] is not None), len(p["hydro_vars"]), p["nboundary"],
-            int(p["units"] != [1.0, 1.0, 1.0]), p["maxcells"], int(bool(p["grav"])) + int(bool(p["rt_vars"])), int(bool(case.get("warm"))) + int(bool(case.get("reload"))) + int(bool(case.get("part_select"))))
+            int(p["units"] != [1.0, 1.0, 1.0]), p["maxcells"], int(bool(p["grav"])) + int(bool(p["rt_vars"])), int(bool(case.get("warm"))) + int(bool(case.get("reload"))) + int(bool(case.get("part_select"))) + int(bool(case.get("sortby_extra"))))
 
 
 def reductions(case, viol):
@@ -279,6 +295,10 @@ def reductions(case, viol):
     if case.get("part_select"):
         c = dict(case)
         del c["part_select"]
+        yield c
+    if case.get("sortby_extra"):
+        c = dict(case)
+        del c["sortby_extra"]
         yield c
     for q in world_reductions(p):
         # keep the part/sink population that the violation is about
